@@ -81,7 +81,8 @@ def drive(ctx):
         forms = rnd.sample(forms, min(len(forms), 450)) if False else pick(ctx.rnd, forms, 450)
     for f in forms:
         n += 1
-        ctx.emit("iso_parse", {"form": f, "exact": bool(n % 2), "tz": TZS[n % 3] if f["ok"] == "none" and n % 4 == 0 else UTCZ})
+        # the tz option applies only when the string carries no offset: an explicit offset (incl. Z / +00:00) wins
+        ctx.emit("iso_parse", {"form": f, "exact": bool(n % 2), "tz": TZS[n % 3] if n % 3 != 0 or n % 4 == 0 else UTCZ})
     # whole years x six date forms
     years = list(range(1583, 10000))
     rot = ctx.seed % 40
@@ -102,4 +103,4 @@ def drive(ctx):
         fo = ctx.rnd.choice((0, 3600, -3600, 19800, -12600, 86340, -86340, 45900, ctx.rnd.randrange(-1439, 1440) * 60))
         zr = UTCZ if k % 3 == 0 else {"n": "", "fo": fo}
         for fmt in ("isoformat", "str", "iso8601", "rfc3339", "atom", "w3c"):
-            ctx.emit("iso_roundtrip", {"fmt": fmt}, [mk_dt(zr, w, 0)])
+            ctx.emit("iso_roundtrip", {"fmt": fmt, "tz": TZS[(k + len(fmt)) % 3]}, [mk_dt(zr, w, 0)])
